@@ -5,41 +5,71 @@ import SquidModel.Rock.Chain
 
 namespace SquidModel.Rock
 
-/-- the outcome is a value satisfying `P`, or a crash other than running out of fuel -/
-def Sat {α : Type} (m : M α) (P : α → Prop) : Prop :=
+/-- which of the four crash classes a db image can drive the real rebuild into (each with a witness in
+    Properties/C57.lean) a statement tolerates: the two all-ones size assertions, a slot pushed on the free stack twice,
+    an unprocessed slot under squid -S -/
+structure Allow where
+  allOnes : Bool
+  pushed : Bool
+  unprocessed : Bool
+
+/-- all four -/
+def Allow.all : Allow := { allOnes := true, pushed := true, unprocessed := true }
+
+def allowed (A : Allow) : Crash → Bool
+  | .entrySizeAllOnes => A.allOnes
+  | .sfsAllOnes => A.allOnes
+  | .pushedTwice => A.pushed
+  | .unprocessedSlot => A.unprocessed
+  | _ => false
+
+/-- the outcome is a value satisfying `P`, or one of the crashes `A` tolerates (in particular never `outOfFuel`, a failed
+    slot/anchor assertion or a bad id) -/
+def Sat {α : Type} (A : Allow) (m : M α) (P : α → Prop) : Prop :=
   match m with
   | .ok a => P a
-  | .error e => e ≠ .outOfFuel
+  | .error e => allowed A e = true
 
-theorem Sat.pure {α : Type} {a : α} {P : α → Prop} (h : P a) : Sat (pure a : M α) P := h
+variable {A : Allow}
 
-theorem Sat.throw {α : Type} {e : Crash} {P : α → Prop} (h : e ≠ .outOfFuel) : Sat (throw e : M α) P := h
+theorem Sat.pure {α : Type} {a : α} {P : α → Prop} (h : P a) : Sat A (pure a : M α) P := h
+
+theorem Sat.throw {α : Type} {e : Crash} {P : α → Prop} (h : allowed A e = true) : Sat A (throw e : M α) P := h
 
 theorem Sat.bind {α β : Type} {m : M α} {k : α → M β} {P : α → Prop} {Q : β → Prop}
-    (h : Sat m P) (hk : ∀ a, P a → Sat (k a) Q) : Sat (m >>= k) Q := by
+    (h : Sat A m P) (hk : ∀ a, P a → Sat A (k a) Q) : Sat A (m >>= k) Q := by
   cases m with
   | ok a => exact hk a h
   | error e => exact h
 
-theorem Sat.mono {α : Type} {m : M α} {P Q : α → Prop} (h : Sat m P) (hpq : ∀ a, P a → Q a) : Sat m Q := by
+theorem Sat.mono {α : Type} {m : M α} {P Q : α → Prop} (h : Sat A m P) (hpq : ∀ a, P a → Q a) : Sat A m Q := by
   cases m with
   | ok a => exact hpq a h
   | error e => exact h
 
-theorem Sat.of_ok {α : Type} {m : M α} {P : α → Prop} {a : α} (h : Sat m P) (hm : m = .ok a) : P a := by
+theorem Sat.of_ok {α : Type} {m : M α} {P : α → Prop} {a : α} (h : Sat A m P) (hm : m = .ok a) : P a := by
   subst hm; exact h
 
-theorem Sat.ne_fuel {α : Type} {m : M α} {P : α → Prop} (h : Sat m P) : m ≠ .error .outOfFuel := by
-  intro hm; subst hm; exact h rfl
+theorem Sat.ne_fuel {α : Type} {m : M α} {P : α → Prop} (h : Sat A m P) : m ≠ .error .outOfFuel := by
+  intro hm; subst hm; have h' : allowed A Crash.outOfFuel = true := h; cases h'
 
+theorem Sat.of_error {α : Type} {m : M α} {P : α → Prop} {e : Crash} (h : Sat A m P) (hm : m = .error e) : allowed A e = true := by
+  subst hm; exact h
+
+/-- a check that cannot fail -/
 theorem Sat.check {β : Type} {c : Bool} {e : Crash} {k : Unit → M β} {Q : β → Prop}
-    (he : e ≠ .outOfFuel) (hk : c = true → Sat (k ()) Q) : Sat (check c e >>= k) Q := by
+    (hc : c = true) (hk : Sat A (k ()) Q) : Sat A (SquidModel.Rock.check c e >>= k) Q := by
+  subst hc; exact hk
+
+/-- a check whose failure is one of the allowed crashes -/
+theorem Sat.checkA {β : Type} {c : Bool} {e : Crash} {k : Unit → M β} {Q : β → Prop}
+    (he : allowed A e = true) (hk : c = true → Sat A (k ()) Q) : Sat A (SquidModel.Rock.check c e >>= k) Q := by
   cases c with
   | true => exact hk rfl
   | false => exact he
 
 theorem Sat.ite {α : Type} {c : Prop} [Decidable c] {a b : M α} {P : α → Prop}
-    (ha : c → Sat a P) (hb : ¬c → Sat b P) : Sat (if c then a else b) P := by
+    (ha : c → Sat A a P) (hb : ¬c → Sat A b P) : Sat A (if c then a else b) P := by
   by_cases h : c
   · simpa [h] using ha h
   · simpa [h] using hb h
@@ -101,28 +131,35 @@ structure FreeSlotPost (g : Geo) (pos : Int) (st : St) (s : Int) (st' : St) : Pr
   free : st'.free = s :: st.free
   ok : slotOk g pos s = true
 
-theorem push_sat (st : St) (s : Int) : Sat (push st s) (fun st' => st' = { st with free := s :: st.free }) := by
+theorem push_sat (st : St) (s : Int) (hp : A.pushed = true ∨ s ∉ st.free) :
+    Sat A (push st s) (fun st' => st' = { st with free := s :: st.free }) := by
   unfold push
   split
-  · exact Sat.throw (by decide)
+  · rename_i hin
+    cases hp with
+    | inl h => exact Sat.throw h
+    | inr h => exact absurd hin h
   · exact Sat.pure rfl
 
-theorem freeSlot_sat (g : Geo) (pos : Int) (st : St) (s : Int) (inv : Bool) :
-    Sat (freeSlot g pos st s inv) (FreeSlotPost g pos st s) := by
+theorem freeSlot_sat (g : Geo) (pos : Int) (st : St) (s : Int) (inv : Bool)
+    (hok : slotOk g pos s = true) (hfr : (st.ls s).freed = false) (hp : A.pushed = true ∨ s ∉ st.free) :
+    Sat A (freeSlot g pos st s inv) (FreeSlotPost g pos st s) := by
   unfold freeSlot
-  refine Sat.check (by decide) fun hok => ?_
-  refine Sat.check (by decide) fun _ => ?_
-  refine Sat.mono (push_sat _ _) ?_
+  refine Sat.check hok ?_
+  refine Sat.check (by rw [hfr]; rfl) ?_
+  refine Sat.mono (push_sat _ _ (by cases inv <;> exact hp)) ?_
   intro st' h
   subst h
   cases inv <;> exact ⟨rfl, rfl, rfl, rfl, rfl, rfl, hok⟩
 
-theorem freeUnusedSlot_sat (g : Geo) (pos : Int) (st : St) (s : Int) (inv : Bool) :
-    Sat (freeUnusedSlot g pos st s inv) (FreeSlotPost g pos st s) := by
+theorem freeUnusedSlot_sat (g : Geo) (pos : Int) (st : St) (s : Int) (inv : Bool)
+    (hok : slotOk g pos s = true) (hm : (st.ls s).mapped = false) (hfr : (st.ls s).freed = false)
+    (hp : A.pushed = true ∨ s ∉ st.free) :
+    Sat A (freeUnusedSlot g pos st s inv) (FreeSlotPost g pos st s) := by
   unfold freeUnusedSlot
-  refine Sat.check (by decide) fun _ => ?_
-  refine Sat.check (by decide) fun _ => ?_
-  exact freeSlot_sat g pos st s inv
+  refine Sat.check hok ?_
+  refine Sat.check (by rw [hm]; rfl) ?_
+  exact freeSlot_sat g pos st s inv hok hfr hp
 
 /-! ### the loop of freeBadEntry -/
 
@@ -136,11 +173,13 @@ structure FreeLoopPost (g : Geo) (pos : Int) (st : St) (L : List Int) (st' : St)
   ok : ∀ x ∈ L, slotOk g pos x = true
 
 theorem freeBadLoop_sat (g : Geo) (pos : Int) : ∀ (L : List Int) (fuel : Nat) (s : Int) (st : St),
-    Chain st.more s L → L.length < fuel → Sat (freeBadLoop g pos fuel s st) (FreeLoopPost g pos st L) := by
+    Chain st.more s L → L.length < fuel → L.Nodup → (∀ x ∈ L, slotOk g pos x = true ∧ (st.ls x).freed = false) →
+    (A.pushed = true ∨ ∀ x ∈ L, x ∉ st.free) →
+    Sat A (freeBadLoop g pos fuel s st) (FreeLoopPost g pos st L) := by
   intro L
   induction L with
   | nil =>
-    intro fuel s st hc hf
+    intro fuel s st hc hf _ _ _
     have hs := Chain.nil_iff.1 hc
     cases fuel with
     | zero => simp at hf
@@ -148,16 +187,19 @@ theorem freeBadLoop_sat (g : Geo) (pos : Int) : ∀ (L : List Int) (fuel : Nat) 
       simp only [freeBadLoop, hs, if_true]
       exact Sat.pure ⟨rfl, rfl, rfl, rfl, (markFreed_nil _).symm, by simp, by simp⟩
   | cons x xs ih =>
-    intro fuel s st hc hf
+    intro fuel s st hc hf hnd hall hp
     obtain ⟨hsx, hx0, hrest⟩ := Chain.cons_iff.1 hc
     subst hsx
+    obtain ⟨hsxs, hnd'⟩ := List.nodup_cons.1 hnd
+    have hps : A.pushed = true ∨ s ∉ st.free := hp.imp id (fun h => h s (List.mem_cons_self ..))
+    obtain ⟨hok, hfr⟩ := hall s (List.mem_cons_self ..)
     cases fuel with
     | zero => simp at hf
     | succ n =>
       have hneg : ¬ s < 0 := by omega
       simp only [freeBadLoop, hneg, if_false]
-      refine Sat.check (by decide) fun hok => ?_
-      refine Sat.bind (freeSlot_sat g pos st s true) ?_
+      refine Sat.check hok ?_
+      refine Sat.bind (freeSlot_sat g pos st s true hok hfr hps) ?_
       intro st1 h1
       have hmore : st1.more = st.more := by
         funext y
@@ -166,7 +208,19 @@ theorem freeBadLoop_sat (g : Geo) (pos : Int) : ∀ (L : List Int) (fuel : Nat) 
         · subst hy; simp
         · simp [upd_other _ _ _ _ hy]
       have hc1 : Chain st1.more (st.ls s).more xs := by rw [hmore]; exact hrest
-      refine Sat.mono (ih n (st.ls s).more st1 hc1 (by simpa using hf)) ?_
+      have hall1 : ∀ y ∈ xs, slotOk g pos y = true ∧ (st1.ls y).freed = false := by
+        intro y hy
+        have hys : y ≠ s := fun e => hsxs (e ▸ hy)
+        rw [h1.ls, upd_other _ _ _ _ hys]
+        exact hall y (List.mem_cons_of_mem _ hy)
+      have hp1 : A.pushed = true ∨ ∀ y ∈ xs, y ∉ st1.free := by
+        refine hp.imp id (fun h y hy => ?_)
+        rw [h1.free]
+        intro hm
+        cases hm with
+        | head => exact hsxs hy
+        | tail _ hm => exact h y (List.mem_cons_of_mem _ hy) hm
+      refine Sat.mono (ih n (st.ls s).more st1 hc1 (by simpa using hf) hnd' hall1 hp1) ?_
       intro st' h'
       refine ⟨h'.le.trans h1.le, h'.an.trans h1.an, h'.sl.trans h1.sl, h'.ec.trans h1.ec, ?_, ?_, ?_⟩
       · rw [h'.ls, h1.ls, markFreed_cons]
@@ -198,15 +252,20 @@ structure FreeBadPost (g : Geo) (pos : Int) (st : St) (f : Nat) (L : List Int) (
   ok : ∀ x ∈ L, slotOk g pos x = true
 
 theorem freeBadEntry_sat (g : Geo) (pos : Int) (st : St) (f : Nat) (L : List Int)
-    (hc : Chain st.more (st.an f).start L) (hlen : L.length ≤ g.slots) :
-    Sat (freeBadEntry g pos st f) (FreeBadPost g pos st f L) := by
+    (hc : Chain st.more (st.an f).start L) (hlen : L.length ≤ g.slots)
+    (hf : f < g.entries) (hw : (st.an f).writing = true) (hsz : (st.an f).start < 0 ∨ 0 < (st.le f).size)
+    (hnd : L.Nodup) (hall : ∀ x ∈ L, slotOk g pos x = true ∧ (st.ls x).freed = false)
+    (hp : A.pushed = true ∨ ∀ x ∈ L, x ∉ st.free) :
+    Sat A (freeBadEntry g pos st f) (FreeBadPost g pos st f L) := by
   unfold freeBadEntry
-  refine Sat.check (by decide) fun _ => ?_
-  refine Sat.check (by decide) fun _ => ?_
-  refine Sat.check (by decide) fun _ => ?_
-  refine Sat.bind (freeBadLoop_sat g pos L (g.slots + 1) _ _ (by exact hc) (by omega)) ?_
+  refine Sat.check (by simpa using hf) ?_
+  refine Sat.check (by simpa using hw) ?_
+  refine Sat.check (by
+    simp only [upd_same, Bool.or_eq_true, decide_eq_true_eq]
+    exact hsz) ?_
+  refine Sat.bind (freeBadLoop_sat g pos L (g.slots + 1) _ _ (by exact hc) (by omega) hnd (by exact hall) (by exact hp)) ?_
   intro st2 h2
-  refine Sat.check (by decide) fun _ => ?_
+  refine Sat.check (by rw [h2.an]; simpa using hw) ?_
   refine Sat.pure ⟨?_, ?_, ?_, ?_, ?_, h2.ok⟩
   · simp [h2.le]
   · simp [h2.an]
@@ -224,11 +283,13 @@ structure FreeChainPost (st : St) (C : List Int) (st' : St) : Prop where
   free : ∀ x, x ∈ st'.free ↔ x ∈ C ∨ x ∈ st.free
 
 theorem freeChainAt_sat (g : Geo) : ∀ (C : List Int) (fuel : Nat) (s : Int) (st : St),
-    Chain st.next s C → C.Nodup → C.length < fuel → Sat (freeChainAt g fuel s st) (FreeChainPost st C) := by
+    Chain st.next s C → C.Nodup → C.length < fuel → (∀ x ∈ C, x < (g.slots : Int)) →
+    (A.pushed = true ∨ ∀ x ∈ C, x ∉ st.free) →
+    Sat A (freeChainAt g fuel s st) (FreeChainPost st C) := by
   intro C
   induction C with
   | nil =>
-    intro fuel s st hc _ hf
+    intro fuel s st hc _ hf _ _
     have hs := Chain.nil_iff.1 hc
     cases fuel with
     | zero => simp at hf
@@ -236,7 +297,7 @@ theorem freeChainAt_sat (g : Geo) : ∀ (C : List Int) (fuel : Nat) (s : Int) (s
       simp only [freeChainAt, hs, if_true]
       exact Sat.pure ⟨rfl, rfl, rfl, (clearOn_nil _).symm, by simp⟩
   | cons x xs ih =>
-    intro fuel s st hc hnd hf
+    intro fuel s st hc hnd hf hr hp
     obtain ⟨hsx, hx0, hrest⟩ := Chain.cons_iff.1 hc
     subst hsx
     obtain ⟨hxn, hnd'⟩ := List.nodup_cons.1 hnd
@@ -245,8 +306,8 @@ theorem freeChainAt_sat (g : Geo) : ∀ (C : List Int) (fuel : Nat) (s : Int) (s
     | succ n =>
       have hneg : ¬ s < 0 := by omega
       simp only [freeChainAt, hneg, if_false]
-      refine Sat.check (by decide) fun _ => ?_
-      refine Sat.bind (push_sat _ _) ?_
+      refine Sat.check (by simpa using hr s (List.mem_cons_self ..)) ?_
+      refine Sat.bind (push_sat _ _ (hp.imp id (fun h => h s (List.mem_cons_self ..)))) ?_
       intro st2 h2
       subst h2
       have hc1 : Chain (St.next { st with sl := upd st.sl s {}, free := s :: st.free }) (st.sl s).next xs := by
@@ -254,7 +315,12 @@ theorem freeChainAt_sat (g : Geo) : ∀ (C : List Int) (fuel : Nat) (s : Int) (s
         intro y hy
         have : y ≠ s := fun h => hxn (h ▸ hy)
         simp [St.next, upd_other _ _ _ _ this]
-      refine Sat.mono (ih n _ _ hc1 hnd' (by simpa using hf)) ?_
+      have hp1 : A.pushed = true ∨ ∀ y ∈ xs, y ∉ (s :: st.free) := by
+        refine hp.imp id (fun h y hy hm => ?_)
+        cases hm with
+        | head => exact hxn hy
+        | tail _ hm => exact h y (List.mem_cons_of_mem _ hy) hm
+      refine Sat.mono (ih n _ _ hc1 hnd' (by simpa using hf) (fun y hy => hr y (List.mem_cons_of_mem _ hy)) hp1) ?_
       intro st' h'
       refine ⟨h'.le, h'.an, h'.ls, ?_, ?_⟩
       · rw [h'.sl]; exact clearOn_cons _ _ _
@@ -280,8 +346,9 @@ structure MapFreePost (st : St) (f : Nat) (C : List Int) (st' : St) : Prop where
   free : ∀ x, x ∈ st'.free → x ∈ C ∨ x ∈ st.free
 
 theorem mapFreeEntry_sat (g : Geo) (st : St) (f : Nat) (C : List Int)
-    (hw : (st.an f).writing = false) (hc : Chain st.next (st.an f).start C) (hnd : C.Nodup) (hlen : C.length ≤ g.slots) :
-    Sat (mapFreeEntry g st f) (MapFreePost st f C) := by
+    (hw : (st.an f).writing = false) (hc : Chain st.next (st.an f).start C) (hnd : C.Nodup) (hlen : C.length ≤ g.slots)
+    (hr : ∀ x ∈ C, x < (g.slots : Int)) (hp : A.pushed = true ∨ ∀ x ∈ C, x ∉ st.free) :
+    Sat A (mapFreeEntry g st f) (MapFreePost st f C) := by
   unfold mapFreeEntry
   simp only [hw, Bool.not_false, if_true]
   unfold freeChain
@@ -294,7 +361,7 @@ theorem mapFreeEntry_sat (g : Geo) (st : St) (f : Nat) (C : List Int)
     · simp [upd_other _ _ _ _ hy]
   · simp only [upd_same, hk, Bool.not_false, if_true]
     have hc' : Chain (St.next { st with an := upd st.an f { st.an f with writing := true } }) (st.an f).start C := hc
-    refine Sat.bind (freeChainAt_sat g C (g.slots + 1) _ _ hc' hnd (by omega)) ?_
+    refine Sat.bind (freeChainAt_sat g C (g.slots + 1) _ _ hc' hnd (by omega) hr (by exact hp)) ?_
     intro st1 h1
     refine Sat.pure ⟨?_, ?_, ?_, Or.inr ?_, ?_⟩
     · simp [h1.le]
@@ -318,12 +385,13 @@ structure MapSlotPost (st : St) (s : Int) (h : Header) (st' : St) : Prop where
   ls : st'.ls = upd st.ls s { st.ls s with mapped := true }
   sl : st'.sl = upd st.sl s { size := h.payloadSize, next := h.nextSlot }
 
-theorem mapSlot_sat (g : Geo) (pos : Int) (st : St) (s : Int) (h : Header) :
-    Sat (mapSlot g pos st s h) (MapSlotPost st s h) := by
+theorem mapSlot_sat (g : Geo) (pos : Int) (st : St) (s : Int) (h : Header)
+    (hok : slotOk g pos s = true) (hm : (st.ls s).mapped = false) (hfr : (st.ls s).freed = false) :
+    Sat A (mapSlot g pos st s h) (MapSlotPost st s h) := by
   unfold mapSlot
-  refine Sat.check (by decide) fun _ => ?_
-  refine Sat.check (by decide) fun _ => ?_
-  refine Sat.check (by decide) fun _ => ?_
+  refine Sat.check hok ?_
+  refine Sat.check (by rw [hm]; rfl) ?_
+  refine Sat.check (by rw [hfr]; rfl) ?_
   exact Sat.pure ⟨rfl, rfl, rfl, rfl, rfl⟩
 
 end SquidModel.Rock
